@@ -16,6 +16,7 @@ def L():
     global _L
     if _L is None:
         _L = loader.load(pkgname='dcsym_ch', cut=False, modules=['core', 'persistent', 'fanout', 'recipes'])
+        _L.fanout.tempfile = __import__('tempfile')
         _L._orig = {k: _L.core.__dict__.get(k) for k in ('open', 'os', 'op', 'io', 'zlib')}
     return _L
 
